@@ -242,6 +242,10 @@ OPS = [
   ("table_decreasing_x", "*", tf_set([("x", "5 4 3 2 1 0"), ("y", "1 2 3 4 5 6")])),
   ("table_unknown_interpolation", "*", tf_set([("interpolation", "linear")])),
   ("table_no_data", "*", tf_set([], drop=("x", "y"))),
+  # a second table form with exactly the data of the first (valid) one but something wrong with it: what was learnt
+  # about the first must not be reused for the second
+  ("second_table_same_data_unknown_interpolation", "*", lambda it, info, rng: (it.append(["Table-Form:tbl2", [["interpolation", rng.choice(["linear", "quadratic", "spline"])]] + [list(kv) for kv in bm.sec(it, "Table-Form:tbl")[1] if kv[0] in ("x", "y")]]), it)[1]),
+  ("second_table_same_data_given_twice", "*", lambda it, info, rng: (it.append(["Table-Form:tbl2", [list(kv) for kv in bm.sec(it, "Table-Form:tbl")[1] if kv[0] in ("x", "y")] + [["xy", "0 1 1 2 2 3 3 4"]]]), it)[1]),
   ("table_empty_x_and_y", "*", tf_set([("x", ""), ("y", "")])),
   ("table_empty_xy", "*", tf_set([("xy", "")], drop=("x", "y"))),
   ("table_nan_in_data", "*", tf_set([("y", "1 2 nan 4 5 6")])),
